@@ -24,6 +24,7 @@ mod yaml;
 
 fn main() {
     let args: Vec<String> = std::env::args().collect();
+    util::start_stall_monitor();
     if args.len() < 3 {
         eprintln!("usage: opwv replay <gen> <in> <out> | opwv record <what> <out>");
         std::process::exit(2);
